@@ -19,7 +19,21 @@ def pre_hook(world, gen_, mons):
     orig_next = gen_.next
 
     def nxt():
-        if gen_.rng.random() < 0.03:
+        r_ = gen_.rng.random()
+        if 0.03 <= r_ < 0.06:
+            # a never-funded pair seeded with EQUAL amounts (supply == both reserves) by one actor who then leaves with
+            # everything at once: the exit where the exact share stops one unit short of each reserve
+            led = world.ledger
+            empt = [p for p in world.pairs if p.supply(led) == 0 and not any(p.reserves(led))]
+            if empt:
+                p = gen_.rng.choice(empt)
+                actor = gen_.rng.choice(p.whitelist) if p.whitelist else "lp1"
+                d = max(p.mins[0], p.mins[1], gen_.rng.choice([1000, 2000, 10 ** 6, 12345678, 3 * 10 ** 9 + 1]))
+                if all(led.get(actor, a[1]) >= d for a in p.assets):
+                    gen_.count += 1
+                    gen_.pending.append({"kind": "withdraw_all", "actor": actor, "pair": p, "due": gen_.count + 1, "born": gen_.count})
+                    return world.op_provide(actor, p, [d, d]), [(p.addr, {"pool": {}})]
+        if r_ < 0.03:
             nn = [p for p in world.pairs if p.kind() == "nn" and p.supply(world.ledger) > 0]
             if nn:
                 p = gen_.rng.choice(nn)
@@ -94,7 +108,7 @@ def floors(acc, tier):
 
 
 RULE = ("successful withdrawals (LP send hook) in seeded histories: burn amounts 1, all, random and amounts constructed so "
-        "that a*1e18 mod S sits on its edges; reserves inflated by donations, supplies shrunk by direct burns (S<<r and S>>r). "
+        "that a*1e18 mod S sits on its edges; reserves inflated by donations, supplies shrunk by direct burns (S<<r and S>>r); never-funded pairs seeded with equal amounts and emptied by their sole holder in the next step. "
         "Class = (pair orientation, outcome, burn/supply relation, supply bucket, reserve bucket, supply-vs-reserve relation) "
         "and pro-rata remainder class; distinct_nontrivial counts distinct classes. Full ledger delta must equal the withdrawal's own cells.")
 
